@@ -416,19 +416,19 @@ func (ctx Ctx) isPkg(e ast.Expr, name string) bool {
 	return specialPackages[pkgName.Imported().Path()] == name
 }
 
-// checkNotEvaluated reports arguments that goose drops although evaluating
+// checkNotEvaluated reports operands that goose drops although evaluating
 // them calls a function, which the program would no longer do
-func (ctx Ctx) checkNotEvaluated(call *ast.CallExpr, args []ast.Expr) {
+func (ctx Ctx) checkNotEvaluated(n ast.Node, args []ast.Expr, what string) {
 	for _, arg := range args {
 		if ctx.hasCall(arg) {
-			ctx.unsupported(call, "logging call with an argument that calls a function (the arguments are not evaluated)")
+			ctx.unsupported(n, "%s that calls a function (it is not evaluated)", what)
 		}
 	}
 }
 
 // loggingStmt translates a call that only prints: it is kept as a comment
 func (ctx Ctx) loggingStmt(call *ast.CallExpr, args []ast.Expr) coq.Expr {
-	ctx.checkNotEvaluated(call, args)
+	ctx.checkNotEvaluated(call, args, "logging call with an argument")
 	return coq.LoggingStmt{GoCall: ctx.printGo(call)}
 }
 
@@ -488,7 +488,7 @@ func (ctx Ctx) packageMethod(f *ast.SelectorExpr,
 	//
 	// See https://github.com/mit-pdos/goose-nfsd/blob/master/util/util.go
 	if isIdent(f.X, "util") && f.Sel.Name == "DPrintf" && ctx.isVariadic(call) {
-		ctx.checkNotEvaluated(call, args[2:])
+		ctx.checkNotEvaluated(call, args[2:], "logging call with an argument")
 		return coq.NewCallExpr(coq.GallinaIdent("util.DPrintf"),
 			ctx.expr(args[0]),
 			ctx.expr(args[1]),
@@ -537,6 +537,8 @@ func (ctx Ctx) selectorMethod(f *ast.SelectorExpr, call *ast.CallExpr) coq.Expr 
 		return ctx.prophIdMethod(f, args)
 	}
 	if isDisk(selectorType) {
+		// there is one disk: the receiver is not translated
+		ctx.checkNotEvaluated(f, []ast.Expr{f.X}, "disk receiver")
 		method := fmt.Sprintf("disk.%s", f.Sel)
 		// skip disk argument (f.X) and just pass the method arguments
 		return ctx.newCoqCall(method, call.Args)
@@ -751,6 +753,10 @@ func (ctx Ctx) makeSliceExpr(elt coq.Type, args []ast.Expr) coq.CallExpr {
 
 // makeExpr parses a call to make() into the appropriate data-structure Call
 func (ctx Ctx) makeExpr(args []ast.Expr) coq.CallExpr {
+	if _, ok := ctx.typeOf(args[0]).Underlying().(*types.Map); ok {
+		// the size hint of a map is dropped
+		ctx.checkNotEvaluated(args[0], args[1:], "size hint of a map")
+	}
 	switch typeArg := args[0].(type) {
 	case *ast.MapType:
 		mapTy := ctx.mapType(typeArg)
@@ -906,6 +912,8 @@ func (ctx Ctx) callExpr(s *ast.CallExpr) coq.Expr {
 		}
 	}
 	if ctx.isBuiltinIdent(s.Fun, "panic") {
+		// only a literal message is kept
+		ctx.checkNotEvaluated(s, s.Args, "argument of panic")
 		msg := "oops"
 		if e, ok := s.Args[0].(*ast.BasicLit); ok {
 			if e.Kind == token.STRING {
